@@ -152,6 +152,10 @@ def check(run: Run) -> None:
 
     # ---------------- R3 / R6: snapshot built eagerly, from the callable's own scopes, inner scope wins
     check_snapshot(run, ctx, m, cls)
+    # "a captured value that cannot be transported makes that call raise ValueError": the refusal must leave the library
+    from .c10 import check_refusals_propagate
+
+    check_refusals_propagate(run, m, "C04.R8")
 
     # ---------------- R4, R5 (shared with C13.R3)
     from .c13 import _check_gate
